@@ -11,7 +11,7 @@ TERM = "::dxrt::Term"
 def specs_all(tier):
     out = []
     k = 0
-    shapes = ["plain", "generic", "generic_self_where", "generic_self_hrtb", "generic_self_hrtb_inline", "output_self"]
+    shapes = ["plain", "generic", "generic_self_where", "generic_self_hrtb", "generic_self_hrtb_inline", "generic_self_nested", "output_self", "rhs_self"]
     for op in C.BINOPS:
         for shape in shapes:
             for lref in (False, True):
@@ -34,7 +34,7 @@ def render(s):
     op = s["op"]
     fn = C.OPFN[op]
     sym = C.OPSYM[op]
-    generic = s["shape"] != "plain"
+    generic = s["shape"] not in ("plain", "rhs_self")
     g = "<T>" if generic else ""
     if s["shape"] == "generic_self_hrtb_inline":
         # an inline bound that is already higher-ranked and mentions `Self`
@@ -49,6 +49,9 @@ def render(s):
         wh = f"where T: ::core::clone::Clone + ::dxrt::Tm"
         if s["shape"] == "generic_self_where":
             wh += ", Self: ::core::marker::Sized"
+        if s["shape"] == "generic_self_nested":
+            # `Self` inside another type of a predicate
+            wh += ", ::core::option::Option<Self>: ::core::marker::Sized, (Self, T): ::dxrt::TagL<'static>"
         if s["shape"] == "generic_self_hrtb":
             # a predicate on `Self` that is already higher-ranked
             wh += ", for<'b> Self: ::dxrt::TagL<'b>"
@@ -71,8 +74,12 @@ def render(s):
     log = '::dxrt::trace(format!("user {} {}", l, r));'
     if s["base"] == "binary":
         targ = "" if s["omit_rhs"] else f"<{rhs_ty}>"
+        ptype = rhs_ty
+        if s["shape"] == "rhs_self" and not s["other"] and s["lref"] == s["rref"]:
+            # the right operand's type spelled `Self` (also when Self is `&A`)
+            targ, ptype = "<Self>", "Self"
         items = [f"    type Output = {out_ty};",
-                 f"    fn {fn}(self, uo: {rhs_ty}) -> {A} {{ let l = {getl}; let r = {getr}; {log} A({bin_val}) }}"]
+                 f"    fn {fn}(self, uo: {ptype}) -> {A} {{ let l = {getl}; let r = {getr}; {log} A({bin_val}) }}"]
         if s.get("out_last"):
             items.reverse()
         impl = (f"#[::derive_ex::derive_ex({reqs})]\n"
